@@ -326,6 +326,44 @@ def const_value(op):
     return bits
 
 
+def _short(ty):
+    """A type string with all module paths removed (only the last segments kept)."""
+    import re
+    return re.sub(r"(?:[A-Za-z_][A-Za-z0-9_]*::)+", '', ty or '')
+
+
+def adt_shape(a):
+    """Module-independent shape of an ADT: kind, its own name, variant names and (field name, short field type)."""
+    return [a['kind'], a['path'].rsplit('::', 1)[-1],
+            [[v['name'], [[f['name'], _short(f['ty'])] for f in v['fields']]] for v in a['variants']]]
+
+
+def relocate_moved_adts(j, base):
+    """A type that was moved to another module (its definition cut and pasted into a new file, the old path re-exported)
+    keeps its name and shape: it is mapped back to the path it had on the pinned tree, everywhere in the facts (type
+    strings, method paths, impl headers), before any rule runs.  Only unambiguous matches (same name, same shape, the
+    old path gone, one candidate each way) are applied.  -> (facts, {new path: old path})"""
+    import re
+    badts = base.get('adts')
+    if not badts:
+        return j, {}
+    cur = {norm(a['path']): a for a in j['adts'] if a.get('krate', 'kira') == 'kira'}
+    gone = [p for p in badts if p not in cur]
+    came = [p for p in cur if p not in badts]
+    moved = {}
+    for n in came:
+        sh = adt_shape(cur[n])
+        c = [o for o in gone if badts[o] == sh]
+        if len(c) == 1 and len([m for m in came if adt_shape(cur[m]) == sh]) == 1:
+            moved[n] = c[0]
+    if not moved:
+        return j, {}
+    text = json.dumps(j)
+    for n in sorted(moved, key=len, reverse=True):
+        text = re.sub(r'(?<![A-Za-z0-9_])' + re.escape(n) + r'(?![A-Za-z0-9_])', (lambda o: (lambda m: o))(moved[n]), text)
+    return json.loads(text), moved
+
+
 def canonicalise_names(j):
     """Behaviour-preserving renames of functions and struct fields must not change a verdict.  The names of the pinned
     tree are kept in tables/names_baseline.json; a function that disappeared and reappears in the same impl (or module)
@@ -350,15 +388,17 @@ def canonicalise_names(j):
             f = cur[n]
             if f['sig'] != b['sig'] or f['impl_self'] != b['impl_self'] or f['impl_trait'] != b['impl_trait']:
                 continue
-            if b['impl_self'] is None and n.rsplit('::', 1)[0] != old.rsplit('::', 1)[0]:
-                continue
+            if b['impl_self'] is None and n.rsplit('::', 1)[0] != old.rsplit('::', 1)[0] \
+                    and n.rsplit('::', 1)[-1] != old.rsplit('::', 1)[-1]:
+                continue  # a free function: renamed within its module, or moved to another module under its name
             cands.append(n)
         # the other direction must be unambiguous too
         if len(cands) == 1:
             n = cands[0]
             back = [o for o in missing if base['fns'][o]['sig'] == cur[n]['sig'] and base['fns'][o]['impl_self'] == cur[n]['impl_self']
                     and base['fns'][o]['impl_trait'] == cur[n]['impl_trait']
-                    and (cur[n]['impl_self'] is not None or o.rsplit('::', 1)[0] == n.rsplit('::', 1)[0])]
+                    and (cur[n]['impl_self'] is not None or o.rsplit('::', 1)[0] == n.rsplit('::', 1)[0]
+                         or o.rsplit('::', 1)[-1] == n.rsplit('::', 1)[-1])]
             if len(back) == 1:
                 ren_fn[n] = old
     ren_field = {}
@@ -466,6 +506,43 @@ def _remap(x, loff, boff):
     return x
 
 
+def _splice_call(c, bi, h, hp, mark=True):
+    """Splice the body `h` (path hp) into caller `c` at the call terminating block bi."""
+    blk = c['blocks'][bi]
+    t = blk['term']
+    loff = len(c['locals'])
+    boff = len(c['blocks'])
+    c['locals'].extend(dict(x) for x in h['locals'])
+    for d in h.get('debug', []):
+        c['debug'].append(_remap(d, loff, boff))
+    newb = _remap(h['blocks'], loff, boff)
+    hfile = h['file']
+    if mark:
+        h['inlined_away'] = True
+    for x in newb:
+        x['inl'] = hp
+        if hfile != c['file'] and 'file' not in x['term']:
+            x['term']['file'] = hfile
+        if x['term'].get('k') == 'return':
+            line = x['term'].get('line', 0)
+            x['stmts'].append({'k': 'assign', 'lhs': t['dest'], 'rv': {'k': 'use', 'op': {'k': 'move', 'pl': {'l': loff, 'p': [], 'ty': None, 's': '_%d' % loff}}},
+                               'line': line, 'exp': False})
+            if t.get('t') is None:
+                x['term'] = {'k': 'unreachable', 'line': line, 'exp': False}
+                x['succ'] = []
+            else:
+                x['term'] = {'k': 'goto', 't': t['t'], 'line': line, 'exp': False}
+                x['succ'] = [t['t']]
+            if hfile != c['file']:
+                x['term']['file'] = hfile
+    for i, a in enumerate(t.get('args', [])):
+        blk['stmts'].append({'k': 'assign', 'lhs': {'l': loff + 1 + i, 'p': [], 'ty': None, 's': '_%d' % (loff + 1 + i)},
+                             'rv': {'k': 'use', 'op': a}, 'line': t.get('line', 0), 'exp': False})
+    blk['term'] = {'k': 'goto', 't': boff, 'line': t.get('line', 0), 'exp': False, 'inlined': hp}
+    blk['succ'] = [boff]
+    c['blocks'].extend(newb)
+
+
 def inline_new_helpers(j, max_rounds=4):
     """Extracting a few lines into a new private helper must not change a verdict.  Every kira function that is NOT in
     the names baseline (i.e. did not exist on the pinned tree) and is called directly from kira code is spliced into its
@@ -504,36 +581,7 @@ def inline_new_helpers(j, max_rounds=4):
                 h = helpers.get(hp)
                 if h is None or h is c or hp == cpath or len(h['blocks']) > 400:
                     continue
-                loff = len(c['locals'])
-                boff = len(c['blocks'])
-                c['locals'].extend(dict(x) for x in h['locals'])
-                for d in h.get('debug', []):
-                    c['debug'].append(_remap(d, loff, boff))
-                newb = _remap(h['blocks'], loff, boff)
-                hfile = h['file']
-                h['inlined_away'] = True
-                for x in newb:
-                    x['inl'] = hp
-                    if hfile != c['file'] and 'file' not in x['term']:
-                        x['term']['file'] = hfile
-                    if x['term'].get('k') == 'return':
-                        line = x['term'].get('line', 0)
-                        x['stmts'].append({'k': 'assign', 'lhs': t['dest'], 'rv': {'k': 'use', 'op': {'k': 'move', 'pl': {'l': loff, 'p': [], 'ty': None, 's': '_%d' % loff}}},
-                                           'line': line, 'exp': False})
-                        if t.get('t') is None:
-                            x['term'] = {'k': 'unreachable', 'line': line, 'exp': False}
-                            x['succ'] = []
-                        else:
-                            x['term'] = {'k': 'goto', 't': t['t'], 'line': line, 'exp': False}
-                            x['succ'] = [t['t']]
-                        if hfile != c['file']:
-                            x['term']['file'] = hfile
-                for i, a in enumerate(t.get('args', [])):
-                    blk['stmts'].append({'k': 'assign', 'lhs': {'l': loff + 1 + i, 'p': [], 'ty': None, 's': '_%d' % (loff + 1 + i)},
-                                         'rv': {'k': 'use', 'op': a}, 'line': t.get('line', 0), 'exp': False})
-                blk['term'] = {'k': 'goto', 't': boff, 'line': t.get('line', 0), 'exp': False, 'inlined': hp}
-                blk['succ'] = [boff]
-                c['blocks'].extend(newb)
+                _splice_call(c, bi, h, hp)
                 done.setdefault(cpath, []).append(hp)
                 changed = True
         if not changed:
@@ -549,6 +597,12 @@ class Facts:
                 j = json.load(f)
         else:
             j = path_or_json
+        self.moved_adts = {}
+        if j.get('crate') == 'kira':
+            import os
+            bp = os.path.join(os.path.dirname(os.path.dirname(os.path.abspath(__file__))), 'tables', 'names_baseline.json')
+            if os.path.exists(bp):
+                j, self.moved_adts = relocate_moved_adts(j, json.load(open(bp)))
         self.renamed_fns, self.renamed_fields = canonicalise_names(j)
         self.inlined = inline_new_helpers(j)
         self.j = j
@@ -596,6 +650,41 @@ class Facts:
 
     def bodies_matching(self, pred):
         return [b for b in self.bodies if pred(b)]
+
+    def inlined_view(self, path, depth=2, pred=None):
+        """A copy of the body `path` with its direct calls to kira functions (not trait methods reached through the trait,
+        not closures) spliced in, `depth` levels deep: rules written over the view give the same verdict whether a
+        piece of logic sits in the function itself or in a private method it calls."""
+        import copy
+        b0 = self.body(path)
+        if b0 is None:
+            return None
+        key = (path, depth)
+        cache = self.__dict__.setdefault('_views', {})
+        if key in cache:
+            return cache[key]
+        c = copy.deepcopy(b0.j)
+        for _ in range(depth):
+            changed = False
+            for bi in range(len(c['blocks'])):
+                blk = c['blocks'][bi]
+                t = blk['term']
+                if t.get('k') != 'call' or blk.get('cleanup') or blk.get('inl_done'):
+                    continue
+                cal = t.get('callee') or {}
+                hp = norm(cal.get('resolved') or cal.get('path') or '')
+                hb = self.body(hp)
+                if hb is None or hb.krate != 'kira' or hp == path or '{closure' in hp or len(hb.blocks) > 300:
+                    continue
+                if pred is not None and not pred(hp):
+                    continue
+                _splice_call(c, bi, copy.deepcopy(hb.j), hp, mark=False)
+                changed = True
+            if not changed:
+                break
+        v = Body(c, b0.idx)
+        cache[key] = v
+        return v
 
     def closures_of(self, path):
         out = [b for b in self.bodies if b.path.startswith(path + '::{closure')]
